@@ -10,7 +10,7 @@ THEOREMS = ['Dense.C18_alloc', 'Dense.C18_get_set', 'Dense.C18_get_flip', 'Dense
 
 RULE = ('dense matrices of 1..70 x 1..70 (all word-boundary cases 31/32/33/63/64/65) driven through every exported operation (get, set, flip, clear, copy, '
         'copyrows, copycols, xor_rows, row/column weight, row_is_empty, row_weight_ignore_first on whole words, sparse<->dense) with a full dump (raw words, bits, '
-        'weights) after each mutating operation, compared with the word-level Lean model and an independent Python bit-matrix oracle; popcount helpers on '
+        'weights) after each mutating operation, compared with the word-level Lean model and an independent Python bit-matrix oracle; popcount helpers and the bit macros (every bit index) on '
         'boundary and random words vs the translated functions and bin(x).count; solver: every 0/1 system with p,q<=3 (p>=q) with every NULL pattern of the zero '
         'right-hand sides, sampled 4x3/4x4 and random systems up to 40x40 of every rank, consistent (planted solution) and inconsistent; '
         'non-trivial = distinct script')
@@ -264,11 +264,38 @@ def popcount_check(res, rng, tier):
                 return len(xs)
     return len(xs)
 
+def macro_check(res, rng, tier):
+    """the bit macros as compiled by gcc vs their translation (Gen.vm_*) vs the plain definition: validates the translator's treatment of
+    signed shifts and bitwise operations on the operands that matter (every bit index, including 31)"""
+    exe = common.build_harness('scalardrv', link_lib=False)
+    ws = [0, 1, 2, 0x7FFFFFFF, 0x80000000, 0xFFFFFFFF, 0xAAAAAAAA, 0x55555555, 0x0000FFFF, 0xFFFF0000] + [rng.getrandbits(32) for _ in range(60 if tier == 'quick' else 2000)]
+    idx = list(range(0, 70)) + [95, 96, 97, 1023, 1024, 65535, 2 ** 31 - 1]
+    lines = ['macro %d %d' % (w, i) for w in ws for i in idx]
+    rc, outs, err = common.run_harness(exe, lines)
+    if rc != 0 or len(outs) != len(lines):
+        res.violation('c18:abort:macro', 'macro evaluation aborted: %s' % (common.sanitizer_summary(err) or err[-200:]), replay={'script': lines[len(outs):len(outs) + 1]})
+        return 0
+    mouts = None
+    try: mouts = common.run_model(lines)
+    except Exception as e: res.notes.append('model driver failed on macro lines: %s' % e)
+    for k, (l, o) in enumerate(zip(lines, outs)):
+        f = l.split(); w, i = int(f[1]), int(f[2]); b = i & 31
+        exp = 'ok get=%d set1=%d set0=%d wi=%d bi=%d nw=%d' % ((w >> b) & 1, w | (1 << b), w & ~(1 << b) & 0xFFFFFFFF, i >> 5, i & 31, ((i + 31) & 0xFFFFFFFF) >> 5)
+        if o != exp:
+            res.violation('c18:macro', 'bit macros on w=0x%x index %d give %s, the definition gives %s' % (w, i, o, exp), replay={'script': [l], 'impl_output': o, 'expected': exp})
+            return len(lines)
+        if mouts is not None and mouts[k] != o and not res.violations:
+            res.violation('c18:corr:macro', 'translated macros and compiled ones differ on %s: impl %s model %s' % (l, o, mouts[k]),
+                          replay={'broken': 'correspondence macros (translator)', 'script': [l]}, no_input=True)
+            return len(lines)
+    return len(lines)
+
 def run(res, tier, seed, gen_errs):
     rng = random.Random(seed)
     res.rule = RULE
     ok, log = common.check_lean(res, MODULE, THEOREMS)
     npop = popcount_check(res, rng, tier)
+    res.cov['macro_inputs'] = macro_check(res, rng, tier)
     cases = [dense_case(rng, 'd%d' % i) for i in range(500 if tier == 'quick' else 8000)]
     slines, nsmall = solver_lines(rng, tier)
     scases = [corr.mk('s%d' % i, slines[i:i + 200]) for i in range(0, len(slines), 200)]
